@@ -273,6 +273,106 @@ class HeldBus:
 
 
 
+class KafkaFakeBus:
+    """tickit's OWN Kafka state interface (KafkaStateConsumer / KafkaStateProducer, incl. their YAML (de)serialisation
+    and consumer loop) on an in-process broker with the contract semantics: per-topic byte logs, every consumer reads
+    each subscribed topic from the first offset, in order, one message at a time; which topic a consumer is served
+    from next is chosen by the seeded chooser.  `aiokafka` itself is replaced (no broker in this sandbox)."""
+
+    def __init__(self, trace: Trace, chooser, loop=None):
+        self.trace = trace
+        self.chooser = chooser
+        self.loop = loop
+        self.topics = {}
+        self.consumers = []
+        self.n_consumers = 0
+        self.delivering = 0
+
+    def start(self):
+        pass
+
+    def idle(self):
+        return self.delivering == 0 and all(not c._pending() for c in self.consumers)
+
+    def classes(self):
+        from tickit.core.state_interfaces import kafka as K
+        bus = self
+
+        class Record:
+            def __init__(self, value):
+                self.value = value
+
+        class FakeConsumer:
+            def __init__(self, *topics, auto_offset_reset="latest", value_deserializer=None, **kw):
+                assert auto_offset_reset == "earliest", "tickit relies on replay from the first offset"
+                self.de = value_deserializer or (lambda b: b)
+                self.cursors = {}
+                self.started = False
+                self.wake = asyncio.Event()
+                bus.n_consumers += 1
+                self.cid = bus.n_consumers
+                bus.consumers.append(self)
+
+            async def start(self):
+                await asyncio.sleep(0)
+                self.started = True
+
+            def subscribe(self, topics):
+                for t in list(topics):
+                    bus.topics.setdefault(t, [])
+                    self.cursors.setdefault(t, 0)
+                self.wake.set()
+
+            def _pending(self):
+                return sorted(t for t, i in self.cursors.items() if i < len(bus.topics.get(t, ())))
+
+            def __aiter__(self):
+                return self
+
+            async def __anext__(self):
+                if bus.delivering and getattr(self, "_in", False):
+                    self._in = False
+                    bus.delivering -= 1
+                while True:
+                    ts = self._pending()
+                    if ts:
+                        break
+                    self.wake.clear()
+                    await self.wake.wait()
+                for _ in range(bus.chooser.yields() if hasattr(bus.chooser, "yields") else 0):
+                    await asyncio.sleep(0)
+                ts = self._pending()
+                t = ts[bus.chooser.choose(len(ts))]
+                i = self.cursors[t]
+                self.cursors[t] = i + 1
+                value = self.de(bus.topics[t][i])
+                bus.trace.log("deliver", cid=self.cid, topic=t, msg=msg_repr(value), replay=False)
+                self._in = True
+                bus.delivering += 1
+                return Record(value)
+
+        class FakeProducer:
+            def __init__(self, value_serializer=None, **kw):
+                self.ser = value_serializer or (lambda v: v)
+
+            async def start(self):
+                await asyncio.sleep(0)
+
+            async def send(self, topic, value):
+                data = self.ser(value)
+                bus.trace.log("produce", topic=topic, msg=msg_repr(value),
+                              real=bus.loop.now_ns() if bus.loop else None, step=bus.loop.step if bus.loop else None)
+                bus.topics.setdefault(topic, []).append(data)
+                for c in bus.consumers:
+                    c.wake.set()
+                for _ in range(bus.chooser.ack() if hasattr(bus.chooser, "ack") else 0):
+                    await asyncio.sleep(0)
+
+        K.AIOKafkaConsumer = FakeConsumer
+        K.AIOKafkaProducer = FakeProducer
+        return K.KafkaStateConsumer, K.KafkaStateProducer
+
+
 def reset_internal_bus():
     """Empty tickit's process-wide in-memory message server between cases WITHOUT depending on where its
     containers live (class attributes, instance attributes of the singleton, their names): every dict-like
